@@ -8,6 +8,8 @@ import (
 	"context"
 	"fmt"
 	"io"
+	"net"
+	"os"
 	"strings"
 
 	"verif/explore"
@@ -164,6 +166,8 @@ type callsSpec struct {
 	permute   bool
 	cut       int // -1 none
 	cutErr    bool
+	cutTmo    bool // the stream fails with a timeout-class error (wraps os.ErrDeadlineExceeded) that persists
+	sink      bool // the client->server half keeps accepting (and dropping) bytes after the package closed it
 	fw        int
 	fwEOF     bool // the failing writes report io.EOF (what a closed ssh channel does)
 	after     bool // one more Stat after all callers returned
@@ -180,7 +184,14 @@ func (s callsSpec) String() string {
 		}
 		cs = append(cs, strings.Join(os, ";"))
 	}
-	return fmt.Sprintf("callers[%s] cut=%d cuterr=%v fw=%d fwEOF=%v", strings.Join(cs, " | "), s.cut, s.cutErr, s.fw, s.fwEOF)
+	x := ""
+	if s.cutTmo {
+		x += " timeout-error"
+	}
+	if s.sink {
+		x += " writer-accepts-after-close"
+	}
+	return fmt.Sprintf("callers[%s] cut=%d cuterr=%v fw=%d fwEOF=%v%s", strings.Join(cs, " | "), s.cut, s.cutErr, s.fw, s.fwEOF, x)
 }
 
 type callRes struct {
@@ -207,8 +218,12 @@ func callsScenario(s callsSpec, prop string) explore.Scenario {
 					if s.cutErr {
 						e.s2c.CutErr = io.ErrUnexpectedEOF
 					}
+					if s.cutTmo {
+						e.s2c.CutErr = &net.OpError{Op: "read", Net: "pipe", Err: os.ErrDeadlineExceeded}
+					}
 				}
 				e.c2s.FailWrite = s.fw
+				e.c2s.SinkClosed = s.sink
 				if s.fwEOF {
 					e.c2s.FailErr = io.EOF
 				}
